@@ -9,5 +9,5 @@ cd /verif && ./check "$ID" "$TIER" > /tmp/seedtest.out 2>&1; RC=$?
 cd /repo && git checkout -- . 
 echo "rc=$RC"; grep -aE "VIOLATION|INCONCLUSIVE|property=" /tmp/seedtest.out | head -5
 # evidence file was rewritten by this run: restore the committed one
-cd /verif && git checkout -- evidence 2>/dev/null
+cd /verif && git checkout -- evidence 2>/dev/null; rm -rf /verif/replays
 exit 0
